@@ -41,6 +41,10 @@ def specs_for(ctx, n, salt):
             spec = R.rand_spec(rng, max_steps=int(rng.integers(4, 9)))
         if spec["gsc"]["kind"] == "User":
             spec["gsc"]["look"] = False
+        if i % 5 == 2:
+            # boundary seeds: 0 is a valid seed (libraries treat a falsy seed as "seed from the clock"),
+            # and so are seeds near 2**32 (NumPy's legacy seeding limit is 2**32 - 1)
+            spec["seed"] = [0, 0, 2**32 - 40][(i // 5) % 3]
         out.append(spec)
     return out
 
